@@ -346,7 +346,12 @@ class Worker:
             self.samples.append(obj)
 
     def violation(self, what, witness, finding_key=None):
-        if len(self.violations) < 200:
+        # records that carry a finding key may be dropped beyond 200 per worker (they are only counted);
+        # an UNCLASSIFIED violation is never dropped (hard cap 5000)
+        n_keyed = sum(1 for v in self.violations if v["finding_key"] is not None)
+        if finding_key is None and len(self.violations) < 5000:
+            self.violations.append({"what": what, "witness": _jsonable(witness), "finding_key": None})
+        elif finding_key is not None and n_keyed < 200:
             self.violations.append({"what": what, "witness": _jsonable(witness), "finding_key": finding_key})
         else:
             self.count("violations_dropped_over_200")
